@@ -1,14 +1,18 @@
 """C08 - verbatim content and recorded markup come from the source, unaltered."""
-from ..propbase import deductive
+from ..propbase import deductive, lines_universe, gen_universe, STD_TRUST
 from ..report import Report
 
-FUNCS = [
-    "markdown_it.rules_block.hr.hr", "markdown_it.rules_block.heading.heading", "markdown_it.rules_block.lheading.lheading",
-    "markdown_it.rules_block.fence.fence", "markdown_it.rules_block.code.code", "markdown_it.rules_block.html_block.html_block",
-]
+FUNCS = ["markdown_it.rules_block.hr.hr", "markdown_it.rules_block.heading.heading", "markdown_it.rules_block.lheading.lheading", "markdown_it.rules_block.fence.fence", "markdown_it.rules_block.code.code", "markdown_it.rules_block.html_block.html_block"]
 
 
 def run(tier, seed):
-    rep = Report("C08", tier, seed, "proof")
+    rep = Report("C08", tier, seed, "other")
     deductive(rep, "C08", FUNCS, "contracts.block")
+    lines_universe(rep, "vf.oracles:c08_verbatim", tier, "MarkdownIt.parse", "content lines are suffixes of their source lines minus indentation/markers; markup/info occur in the token's lines (hr: exact marker count); list start/info == digits")
+    gen_universe(rep, "vf.oracles:c08_codespan", "vf.oracles2:gen_c08_spans", tier, "rules_inline.backticks.backtick", "code span content == text between the backtick strings (LF->space, one padding space stripped iff both present and not all U+0020)",
+                 ["commonmark"], "all strings of <= k pieces over {space, a, LF, NBSP, TAB, EM SPACE, 'x y', VT}; distinct = distinct (prefix, length)", "code span interiors")
+    rep.explanation = ("Mixed. Deductive: markup == the scanned marker run with its count (hr, heading, fence, lheading), info == src slice, content == getLines of exactly the token's "
+                       "lines with the right indent (fence, code, html_block). Bounded: getLines' own contract (suffix-of-source-line), list/blockquote markup and the code span rule.")
+    rep.trusted_base = STD_TRUST
+    rep.assumptions = ["StateBlock.getLines is under an assumed contract in the deductive part (its effect is monitored by the bounded content oracle)"]
     return rep
